@@ -85,8 +85,30 @@ void h_RemoveIfFolded(void) {
   __CPROVER_assume(HE_PAIRING(h, n, g) && IMPLIES(HPAIR(h, g) >= 0, HE_PAIRING(h, n, HPAIR(h, g))));
   SNAP(h, g, gs, gp, gq);
   _Bool folded = pa1 != -1 && HSTART(h, a2) == HSTART(h, b2);   /* the two triangles share all three vertices */
+  /* C01 "every vertex is referenced": a0: A->B, a1: B->C, a2: C->A and, oppositely, b0: B->A, b1: A->C, b2: C->B.
+   * Walking the fan of triangles around a vertex of a manifold (incoming halfedge -> its pair -> ...) stays inside the
+   * folded pair exactly when: around B pair(a1) == b2; around A pair(a2) == b1; around C both.  Such a vertex loses
+   * every triangle it had, so it must become a tombstone (NaN position) -- SimplifyTopology callers outside the
+   * Boolean do not run RemoveUnreferencedVerts afterwards. */
+  int vA = HSTART(h, a0), vB = HSTART(h, a1), vC = HSTART(h, a2);
+  /* C01 invariant at these slots: a pair runs between the same two vertices in opposite directions; no triangle repeats a vertex */
+  __CPROVER_assume(pa1 == -1 || (HSTART(h, b0) == vB && HSTART(h, b1) == vA && vA != vB && vB != vC && vA != vC));
+  _Bool isoB = pa1 == b2, isoA = pa2 == b1, isoC = isoA && isoB;
+  unsigned long w = nondet_ulong(); __CPROVER_assume(w < nv);   /* ghost: any vertex */
+  struct linalg_vec_double_3 w0 = impl.vertPos_._base0.ptr_[w];
   HARNESS_END;
   Impl_RemoveIfFolded(&impl, edge);
+#ifdef JOB_RemoveIfFolded_verts
+  if (folded) {
+    struct linalg_vec_double_3 *vp = impl.vertPos_._base0.ptr_;
+    __CPROVER_assert(IMPLIES(isoA, vp[vA].x != vp[vA].x) && IMPLIES(isoB, vp[vB].x != vp[vB].x) && IMPLIES(isoC, vp[vC].x != vp[vC].x),
+                     "a vertex whose only triangles were the folded pair becomes a NaN tombstone (it is referenced by nothing afterwards)");
+    _Bool w_removed = ((int)w == vA && isoA) || ((int)w == vB && isoB) || ((int)w == vC && isoC);
+    __CPROVER_assert(IMPLIES(!w_removed, __CPROVER_equal(vp[w], w0)), "every other vertex keeps its position (a vertex still used by a neighbouring triangle is not removed)");
+  } else {
+    __CPROVER_assert(__CPROVER_equal(impl.vertPos_._base0.ptr_[w], w0), "a pair that is not folded: no vertex position is written");
+  }
+#endif
   _Bool mine = g == a0 || g == a1 || g == a2 || g == b0 || g == b1 || g == b2;
   if (!folded) {
     __CPROVER_assert(SAME_AS(h, g, gs, gp, gq), "a pair of triangles that is not folded is left alone");
